@@ -17,8 +17,10 @@ Ranges(r) == {n \in 1..Len(ComponentNames) : r.pos[n] # <<0, 0>>}
 CountryVerdict(r) ==
     IF ~r.wellformed THEN "structure-string-malformed"
     ELSE IF r.allfixed /\ SumHi(r.toks) # r.blen THEN "structure-does-not-describe-bban-length"
-    ELSE IF ~r.allfixed /\ ~(SumLo(r.toks) <= r.blen /\ r.blen <= SumHi(r.toks))
-         THEN "structure-does-not-describe-bban-length"
+    \* "describes EXACTLY its stated BBAN length": a field of variable length ("2c" = up to two) makes the
+    \* structure describe several lengths, unless the variation is empty
+    ELSE IF ~r.allfixed /\ ~(SumLo(r.toks) = r.blen /\ r.blen = SumHi(r.toks))
+         THEN "structure-describes-other-lengths-than-the-stated-one"
     ELSE IF r.ilen # r.blen + 4 THEN "iban-length-not-bban-length-plus-4"
     ELSE IF r.ilen > 34 THEN "iban-longer-than-34"
     ELSE IF Len(r.key) # 2 \/ ~IsUpper(r.key[1]) \/ ~IsUpper(r.key[2]) THEN "country-key-not-two-letters"
